@@ -152,14 +152,50 @@ if __name__ == '__main__':
 
 
 # =============================================================================================== the check
-KNOWN_KEYS = {
-    # id -> predicate on (failure kind, entry point, description of the call)
-    'F15': lambda kind, op, desc: kind in ('crash', 'sanitizer') and op == 'GEOSDensify_r' and '[EMPTYPART]' in desc,
-    'F17': lambda kind, op, desc: kind in ('crash', 'sanitizer') and op == 'GEOSNode_r' and '[EMPTYPART]' in desc,
-    'F16': lambda kind, op, desc: kind in ('crash', 'sanitizer') and op == 'GEOSCoverageUnion_r' and not re.search(r':(Multi\w+|GeometryCollection)', desc),
-    'F19': lambda kind, op, desc: kind == 'timeout' and op == 'GEOSOffsetCurve_r' and re.search(r':(CurvePolygon|MultiSurface)', desc) is not None,
-    'F18': lambda kind, op, desc: kind == 'timeout' and op in ('GEOSBuffer_r', 'GEOSBufferWithStyle_r', 'GEOSOffsetCurve_r') and '2147483647' in desc,
-}
+def index_out_of_range(op, desc):
+    """argument class of the unchecked-index findings, decided from the sizes the harness prints: {n=<parts>,m=<rings|points|dims>}"""
+    m = re.match(r'(\w+)\(h\d+\{n=(-?\d+),m=(-?\d+)\}[^,)]*(?:,(-?\d+))?(?:,(-?\d+))?', desc)
+    if not m:
+        return False
+    n, mm = int(m.group(2)), int(m.group(3))
+    i1 = int(m.group(4)) if m.group(4) is not None else None
+    i2 = int(m.group(5)) if m.group(5) is not None else None
+    if op == 'GEOSGetGeometryN_r':
+        return i1 is not None and not (0 <= i1 < max(n, 1))
+    if op == 'GEOSGetInteriorRingN_r':
+        return i1 is not None and not (0 <= i1 < mm)
+    if op == 'GEOSGeomGetPointN_r':
+        return i1 is not None and not (0 <= i1 < mm)
+    if op.startswith('GEOSCoordSeq_'):
+        if i1 is None:
+            return False
+        if not (0 <= i1 < n):
+            return True
+        if op in ('GEOSCoordSeq_getOrdinate_r', 'GEOSCoordSeq_setOrdinate_r'):
+            return i2 is not None and not (0 <= i2 < mm)
+        if op in ('GEOSCoordSeq_getZ_r', 'GEOSCoordSeq_setZ_r'):
+            return mm < 3
+        return False
+    return False
+
+
+ARG_CLASSES = {'index_out_of_range': index_out_of_range}
+
+
+def match_known(entry, kind, op, desc, detail):
+    """known findings are keyed by (entry point, failure kind, argument class, signature of the report) — never by property alone"""
+    k = entry.get('key', {})
+    if not k.get('entry_point') or not re.fullmatch(k['entry_point'], op or ''):
+        return False
+    if 'kind' in k and not re.fullmatch(k['kind'], kind):
+        return False
+    if 'arg' in k and not re.search(k['arg'], desc):
+        return False
+    if 'arg_class' in k and not ARG_CLASSES[k['arg_class']](op, desc):
+        return False
+    if 'detail' in k and not re.search(k['detail'], detail):
+        return False
+    return True
 
 
 def parse_result(line):
@@ -247,7 +283,7 @@ def run(ctx):
     out = run_cases([hexe], lines, tmo=200, workers=6)
     ctx.log('implementation (asan): %d programs in %.1fs' % (len(lines), time.time() - t0))
     opcount = {}; fails = {}; softs = {}; ncalls = nerrs = 0; slowest = {}
-    known = {k['id']: k for k in ctx.known if k.get('status') == 'known'}
+    known = [k for k in ctx.known if k.get('status') == 'known']
     nviol = 0
     for line, o in zip(lines, out):
         r = parse_result(o)
@@ -272,10 +308,7 @@ def run(ctx):
             else:
                 problems.append(('soft', '', '', sft))
         for kind, op, desc, detail in problems:
-            hit = None
-            for fid, pred in KNOWN_KEYS.items():
-                if fid in known and pred(kind, op, desc):
-                    hit = known[fid]; break
+            hit = next((e for e in known if match_known(e, kind, op, desc, detail)), None)
             key = '%s %s' % (kind, op)
             fails[key] = fails.get(key, 0) + 1
             if hit:
